@@ -273,7 +273,7 @@ Definition body_bytes (is_head chunking : bool) (ws : list bytes) : bytes :=
    Result: bytes written to the client, connection closed after the reply, drain attempted. *)
 Definition respond_gen (allowed : Z -> bool) (q : rq) (req_body : bool * bool * bool * bool) (flush_first : bool)
            (status : Z) (h : fields) (pieces : list bytes) (err : bool) : bytes * bool * bool :=
-  (* WriteHeader: the clone in cw.header keeps an invalid Content-Length *)
+  (* h: the header after WriteHeader's cleanup (eff_hdrs) *)
   let clen := match get_first s_cl h with
               | [] => -1
               | cl => match parse_int cl with Some v => if 0 <=? v then v else -1 | None => -1 end
@@ -289,6 +289,17 @@ Definition respond_gen (allowed : Z -> bool) (q : rq) (req_body : bool * bool * 
   let short := negb (q_head q) && negb (d_clen d =? -1) && allowed status && negb (d_clen d =? written) in
   (out, d_close d || short || err || werr, d_drain d).
 End Writer.
+
+(* response.WriteHeader: an invalid Content-Length (not ParseInt-able, or negative) is dropped from the header that
+   will be written (after the /repo fix also from the snapshot cw.header); respond_gen takes the cleaned header *)
+Definition eff_hdrs (h : fields) : fields :=
+  match get_first s_cl h with
+  | [] => h
+  | cl => match parse_int cl with
+          | Some v => if 0 <=? v then h else del_key s_cl h
+          | None => del_key s_cl h
+          end
+  end.
 
 (* ---------- what the proxy sees of a backend reply (Transport.RoundTrip -> ReadResponse/readTransfer) ---------- *)
 (* framing of the reply on the backend connection: 0 Content-Length (declared value given separately),
